@@ -424,6 +424,10 @@ KIND_MODEL = """
 pub enum ValueKind { Reference(Box<ValueKind>), Matrix(Box<ValueKind>, Vec<usize>), Other(u64) }
 #[verifier::external_body]
 pub fn kind_eq(a: &ValueKind, b: &ValueKind) -> (r: bool) ensures r == (*a == *b), { unimplemented!() }   // derived PartialEq: structural equality
+// std's `a.iter().product::<usize>() == b.iter().product::<usize>()` over two dimension lists (NOT what the code uses; named so that such a rewrite is judged, not lost)
+pub uninterp spec fn prod(s: Seq<usize>) -> int;
+#[verifier::external_body]
+pub fn prod_eq(a: &Vec<usize>, b: &Vec<usize>) -> (r: bool) ensures r == (prod(a@) == prod(b@)), { unimplemented!() }
 pub open spec fn strip(k: ValueKind) -> ValueKind decreases k {
   match k { ValueKind::Reference(inner) => strip(*inner), _ => k }
 }
@@ -455,6 +459,7 @@ def kind_fn(text):
         s = re.sub(r"\b(\w+)\.as_ref\(\)", r"(&**\1)", s)
         s = re.sub(r"(\(&\*\*\w+\)|\b\w+\b)\s*==\s*(\(&\*\*\w+\)|\b\w+\b)", r"kind_eq(\1, \2)", s)
         return s
+    b = re.sub(r"\b(\w+)\.iter\(\)\.product::<usize>\(\)\s*==\s*(\w+)\.iter\(\)\.product::<usize>\(\)", r"prod_eq(\1, \2)", b)
     helper, b = fix(helper), fix(b)
     if re.search(r"\bfn\b|\bas_ref\b|==(?!\s*\d)", b) or "==" in helper:
         raise AnchorLost("fsm_argument_kind_matches: statements outside the transcription rules")
